@@ -35,6 +35,9 @@ def check(repo: Repo, rep, tier):
 
     range_prov(repo, rep)
     char_units(repo, rep)
+    from .C04 import approval_complete
+
+    approval_complete(repo, rep)
     ctx_restore(repo, rep)
 
 
